@@ -18,7 +18,7 @@ func Harness_C02_envelope() {
 	ch := newVerifChan(s.mu, true)
 	s.Start(ch)
 
-	class := nondetChoice("record", 4)
+	class := nondetChoice("record", 7)
 	var rec json.RawMessage
 	wantCode := 0
 	wantArray := false
@@ -42,6 +42,10 @@ func Harness_C02_envelope() {
 		k := tokKind(rec)
 		assume(k != tkObject && k != tkArray && k != tkInvalid)
 		wantCode = -32700
+	}
+	if class >= 4 {
+		verifC02Padded(s, ch, log, class)
+		return
 	}
 	ch.in <- rec
 	quiesce()
@@ -82,4 +86,64 @@ func Harness_C02_envelope() {
 	vassert(tokSame(pid, tokLit("7")), "the probe is answered with its id")
 	close(ch.in)
 	reach("alive")
+}
+
+// verifPad surrounds a JSON text with insignificant white space (RFC 8259:
+// space, tab, line feed, carriage return), each byte chosen by the solver.
+func verifPad(tag string, rec json.RawMessage) json.RawMessage {
+	ws := func(t string) []byte {
+		b := nondetBytes(t, 2)
+		for _, c := range b {
+			assume(c == ' ' || c == '\t' || c == '\n' || c == '\r')
+		}
+		return b
+	}
+	var out []byte
+	out = append(out, ws(tag+"-pre")...)
+	out = append(out, rec...)
+	out = append(out, ws(tag+"-post")...)
+	return out
+}
+
+// verifC02Padded: white space around a record does not change what it is: a
+// padded batch is a batch, a padded call is a call, a padded empty array is
+// an empty batch.
+func verifC02Padded(s *Server, ch *verifChan, log *verifLog, class int) {
+	call := verifReq("5", "ping")
+	switch class {
+	case 4:
+		ch.in <- verifPad("pad", tokArray([]json.RawMessage{call}))
+	case 5:
+		ch.in <- verifPad("pad", call)
+	case 6:
+		ch.in <- verifPad("pad", tokArray(nil))
+	}
+	quiesce()
+	vassert(len(ch.sent) == 1, "C02: a padded record is answered with exactly one message")
+	out, ok := tokParse(ch.sent[0])
+	vassert(ok, "the answer is valid JSON")
+	obj := out
+	if class == 4 {
+		elems, isArr := tokElems(out)
+		vassert(isArr && len(elems) == 1, "C02: a batch preceded by white space is answered as a batch")
+		obj = elems[0]
+	} else {
+		vassert(tokKind(out) == tkObject, "C02: a single request (or an empty batch) is answered with one object")
+	}
+	id, hasID := tokMember(obj, "id")
+	if class == 6 {
+		vassert(hasID && tokKind(id) == tkNull, "C02: the empty batch is answered with id null")
+		er, hasErr := tokMember(obj, "error")
+		vassert(hasErr, "C02: it is an error")
+		code, _ := tokMember(er, "code")
+		c, isInt := tokIntValue(code)
+		vassert(isInt && c == -32600, "C02: -32600 for an empty array, padded or not")
+		vassert(len(log.runs) == 0, "C02: no handler is invoked")
+	} else {
+		vassert(hasID && tokSame(id, tokLit("5")), "C02: the padded call is answered under its id")
+		_, hasRes := tokMember(obj, "result")
+		vassert(hasRes && log.count("ping") == 1, "C02: the padded call ran its handler once and got its result")
+	}
+	close(ch.in)
+	reach("padded")
 }
